@@ -53,6 +53,9 @@ SCRIPTS = [
     ("multi-write-error", "postgres", "insert into a select x into b from c", None),
     ("case-subquery", "ansi", "insert into t select case when (select max(a) from s1) > 0 then (select max(b) from s2) else 0 end as c, d from s3", None),
     ("tsql-batch", "tsql", "select a into t1 from s1; insert into t2 select a from t1 join s2 on 1 = 1", None),
+    ("sibling-subqueries-md", "ansi", "insert into s.t select x.id, y.id as id2 from (select id from s.a join s.b on 1 = 1) x join (select id from s.c join s.d on 1 = 1) y on 1 = 1",
+     {"s.a": ["id", "x"], "s.b": ["y"], "s.c": ["z"], "s.d": ["id", "k"]}),
+    ("sibling-subqueries-3", "ansi", "insert into t select x.id, y.id as id2, z.id as id3 from (select id from a, b) x, (select id from c, d) y, (select id from e, f) z", None),
     ("unused-subquery-column", "ansi", "insert into t select s.a from (select a, extra from x) s; with c as (select p, q from y) insert into u select p from c", None),
     ("unsupported-midway", "ansi", "insert into t select a from x; grant select on t to u1; insert into v select a from t", None),
     ("syntax-error-midway", "ansi", "insert into t select a from x; select from where; insert into v select a from t", None),
